@@ -3,7 +3,7 @@ import collections
 import functools
 import json
 
-from gen import c08_memo
+from gen import c08_memo, c08_state
 from lib import c08_sessions as S, framework as fw
 
 META = {
@@ -54,7 +54,7 @@ META = {
                     ('src/geophires_x_client/geophires_input_parameters.py', 'GeophiresInputParameters.__hash__'),
                     ('src/geophires_x/GEOPHIRESv3.py', 'main')],
 }
-GENERATORS = (c08_memo.gen_memo_table,)
+GENERATORS = (c08_memo.gen_memo_table, c08_state.gen_state_table)
 
 PROPERTY_CODES = ('restore', 'refine', 'stale', 'rel')
 WHAT = {
@@ -259,9 +259,48 @@ def memo_ties(ctx, entries, memo_hits):
     ctx.count('memo-functions', evaluations=nv, nontrivial_keys=[e[0] for e in entries])
 
 
+def alias_ties(ctx, texts):
+    """Tie of Gen/C08StateTable to the live objects: two Models built in this process must not share a mutable
+    parameter value / default (what C08_param_defaults_fresh states of the source)."""
+    import logging
+    import sys
+    import numpy as np
+    logging.disable(logging.CRITICAL)
+    import geophires_x.Model as M
+    n = 0
+    for k, text in enumerate(texts):
+        f = ctx.scratch / f'alias_{k}.txt'
+        f.write_text(text)
+        stash = sys.argv
+        sys.argv = ['', str(f), str(ctx.scratch / f'alias_{k}.out')]
+        try:
+            m1, m2 = (M.Model(enable_geophires_logging_config=False) for _ in range(2))
+        finally:
+            sys.argv = stash
+        for comp in ('reserv', 'wellbores', 'surfaceplant', 'economics', 'outputs', 'addeconomics', 'sdacgteconomics'):
+            o1, o2 = getattr(m1, comp, None), getattr(m2, comp, None)
+            if o1 is None or o2 is None:
+                continue
+            for attr, p1 in vars(o1).items():
+                p2 = vars(o2).get(attr)
+                for field in ('value', 'DefaultValue'):
+                    v1, v2 = getattr(p1, field, None), getattr(p2, field, None)
+                    if isinstance(v1, (list, dict, set, np.ndarray)):
+                        n += 1
+                        if v1 is v2:
+                            ctx.violate('corr', f'state:shared-parameter-object:{comp}.{attr}.{field}',
+                                        f'{type(o1).__name__}.{attr}.{field} is the SAME {type(v1).__name__} object in two Model '
+                                        'instances of one process: what one run writes into it is the next run\'s default '
+                                        '(C08_param_defaults_fresh says no default is shared)', inp={'attr': f'{comp}.{attr}.{field}'})
+    ctx.count('parameter-objects', evaluations=n)
+
+
 def correspondence(ctx, proofs_ok=True):
+    import time
+    t0, marks = time.time(), []
     entries = c08_memo.scan()
     contents, refs, ok_ids, bad_ids, mixes, extra = build_pool(ctx, 12 if ctx.quick else 36)
+    marks.append(('pool', round(time.time() - t0)))
     memo_hits = {}
     sessions = []
     for d in corpus_sessions():   # corpus sessions carry their own contents: give them ids after the pool
@@ -282,7 +321,10 @@ def correspondence(ctx, proofs_ok=True):
         _, mh = evaluate(ctx, 'histories', sessions[lo:lo + batch], contents, refs, tag=f'h{lo // batch}')
         for k, v in mh.items():
             memo_hits[k] = memo_hits.get(k, 0) + v
+    marks.append(('histories', round(time.time() - t0)))
     memo_ties(ctx, entries, memo_hits)
+    alias_ties(ctx, [contents[ok_ids[0]], contents[ok_ids[2]]])
+    ctx.note(f'wall clock (s since start of the correspondence): {marks + [("memo/alias ties", round(time.time() - t0))]}')
     ctx.sample('histories', {'ops': sessions[-1]['ops'][:12], 'hashseed': sessions[-1]['hashseed']})
     ctx.note('memo tables seen by the histories (total hits): ' + json.dumps({k: v for k, v in sorted(memo_hits.items()) if v}))
 
